@@ -25,6 +25,45 @@ Theorem remote_delivers_local_only : ∀ bad recips n m o, o ∈ (send bad n rec
 Proof. exact send_only_recipients. Qed.
 Print Assumptions remote_delivers_local_only.
 
+From Wasp Require Import Proofs.Qos2Facts Proofs.StepFacts.
+(** The step as a whole, over the cluster (Proofs/StepFacts.v): from every state in which the log
+    consumers have caught up and nothing is failing, a PUBLISH makes every node [j] that is one of
+    the publisher's destinations — the publisher's own node or ANY OTHER — write exactly one
+    PUBLISH per matching added subscription hosted there whose session is registered there
+    ([local_recips] maps ByPattern's entries one to one, and ByPattern lists none twice: C01
+    [by_pattern_once]), and makes no other node write anything: once, not twice, not zero times. *)
+Theorem other_nodes_deliver_exactly_once : ∀ seen cl c k s p dup mid clk,
+  find_conn cl c = Some k → c_closed k = false → c_sid k = Some (ss_id s) →
+  alookup (ss_id s) (n_reg (getn cl (c_node k))) = Some s →
+  quiescent cl → healthy cl → p_retain p = false → (p_qos p = 0 ∨ p_qos p = 1) →
+  let i := c_node k in
+  let m := LMsg (prefix_mp (ss_mp s) (p_topic p)) (p_payload p) (p_qos p) false dup in
+  Forall (λ d, 1 ≤ d) (dests_of cl i m) →
+  (∀ j u, (j < nlen cl)%nat → u ∈ sub_by_pattern (n_d (getn cl j)) (l_topic m) → s_qos u = 0) →
+  ∃ stores, quiet (λ x, negb (is_store x)) stores ∧
+    (step seen cl (EPublish c p dup mid clk)).2 =
+      (stores ++ (if p_qos p =? 1 then wout (cl_bad cl) c (OPubAck mid) else []) ++ dl s ++
+       flat_map (λ j, if dest_here cl i m j
+                      then flat_map (q0_out (cl_bad cl) (getn cl j) m) (local_recips (getn cl j) (l_topic m)) else [])
+                (seq 0 (nlen cl)))%list.
+Proof. exact publish_step_q0_exact. Qed.
+Print Assumptions other_nodes_deliver_exactly_once.
+
+Theorem subscriber_on_any_destination_is_reached : ∀ seen cl c k s p dup mid clk j u s',
+  find_conn cl c = Some k → c_closed k = false → c_sid k = Some (ss_id s) →
+  alookup (ss_id s) (n_reg (getn cl (c_node k))) = Some s →
+  quiescent cl → healthy cl → p_retain p = false → (p_qos p = 0 ∨ p_qos p = 1) →
+  let i := c_node k in
+  let m := LMsg (prefix_mp (ss_mp s) (p_topic p)) (p_payload p) (p_qos p) false dup in
+  Forall (λ d, 1 ≤ d) (dests_of cl i m) →
+  (∀ j u, (j < nlen cl)%nat → u ∈ sub_by_pattern (n_d (getn cl j)) (l_topic m) → s_qos u = 0) →
+  (j < nlen cl)%nat → dest_here cl i m j = true →
+  u ∈ sub_by_pattern (n_d (getn cl j)) (l_topic m) → s_peer u = n_id (getn cl j) →
+  alookup (s_sid u) (n_reg (getn cl j)) = Some s' → existsb (String.eqb (ss_conn s')) (cl_bad cl) = false →
+  Out (ss_conn s') (OPublish (trim_mp (ss_mp s') (l_topic m)) (p_payload p) 0 false dup 0) ∈ (step seen cl (EPublish c p dup mid clk)).2.
+Proof. exact publish_step_reaches. Qed.
+Print Assumptions subscriber_on_any_destination_is_reached.
+
 Example c14_history :
   let run := fold_left (λ st o, let r := step [] st.1 o in (r.1, (st.2 ++ [r.2])%list)) in
   let ops := [EConnect 1%nat "s1" "c1" "" "" 60 None 10; ESubscribe "s1" 1 [("t/#", 0)] 20;
